@@ -141,8 +141,9 @@ def load_known():
 def finish(prop, tier, results, t0, explanation, assumptions, extra_cov=None, level="other"):
     """Print the summary, write reports and evidence; returns exit code."""
     known = load_known().get(prop, {})
-    os.makedirs(os.path.join(VERIF, "reports"), exist_ok=True)
-    os.makedirs(os.path.join(VERIF, "evidence"), exist_ok=True)
+    OUT = os.environ.get("HLV_OUT") or VERIF
+    os.makedirs(os.path.join(OUT, "reports"), exist_ok=True)
+    os.makedirs(os.path.join(OUT, "evidence"), exist_ok=True)
     n_inst = 0
     viols = []
     samples = []
@@ -167,7 +168,7 @@ def finish(prop, tier, results, t0, explanation, assumptions, extra_cov=None, le
         else:
             new.append(v)
     for i, v in enumerate(new):
-        path = os.path.join(VERIF, "reports", "%s-%d.json" % (prop, i))
+        path = os.path.join(OUT, "reports", "%s-%d.json" % (prop, i))
         with open(path, "w") as fh:
             json.dump(v.to_json(), fh, indent=1, default=str)
         print("  %s:%s: [%s] %s" % (v.file, v.line, v.rule, v.msg))
@@ -197,7 +198,7 @@ def finish(prop, tier, results, t0, explanation, assumptions, extra_cov=None, le
         "coverage": cov, "assumptions": assumptions, "wall_s": round(time.time() - t0, 2),
         "violations": len(new),
     }
-    with open(os.path.join(VERIF, "evidence", "%s.json" % prop), "w") as fh:
+    with open(os.path.join(OUT, "evidence", "%s.json" % prop), "w") as fh:
         json.dump(ev, fh, indent=1, default=str)
     print("property %s tier=%s: %d rule instances, %d violations (%d known findings, %d new), %.1fs" % (
         prop, tier, n_inst, len(viols), len(viols) - len(new), len(new), time.time() - t0))
